@@ -61,6 +61,17 @@ func c13ConvoyGoroutines() int {
 	return strings.Count(string(c13StackBuf[:n]), c13ConvoyMarker+"(")
 }
 
+// c13HasPopHook reports whether the tree under test has the yield point
+// convoy.beforeOverflowPop (a fresh convoy then parks there before anything else).
+var c13HasPopHook = sync.OnceValue(func() bool {
+	repo := os.Getenv("VERIF_REPO")
+	if repo == "" {
+		return false
+	}
+	b, err := os.ReadFile(repo + "/control/udp_task_pool.go")
+	return err == nil && strings.Contains(string(b), `verifYield("convoy.beforeOverflowPop")`)
+})
+
 // c13StackBuf is shared by the (strictly sequential) cases of this package's C13 units.
 var c13StackBuf = make([]byte, 1<<20)
 
@@ -151,6 +162,9 @@ type c13Sched struct {
 	qByPtr    map[*UdpTaskQueue]*c13QInfo
 	gidQueue  map[uint64]*c13QInfo
 	taskByGid map[uint64]*c13Task
+	// pendingFresh: a producer waits for the convoy of the queue it just created
+	pendingFresh  chan struct{}
+	pendingFreshQ *c13QInfo
 	chans     []chan UdpTask
 	tasks     []*c13Task
 	accepted  [][]*c13Task // per key, in acceptance order
@@ -234,6 +248,12 @@ func (s *c13Sched) yield(point string) {
 	gid := c13Gid()
 	s.mu.Lock()
 	pr := s.prodByGid[gid]
+	if pr == nil && s.pendingFresh != nil && point == "convoy.beforeOverflowPop" && s.gidQueue[gid] == nil {
+		s.gidQueue[gid] = s.pendingFreshQ
+		s.pendingFreshQ.gid = gid
+		close(s.pendingFresh)
+		s.pendingFresh, s.pendingFreshQ = nil, nil
+	}
 	if pr != nil {
 		switch point {
 		case "acquire.afterLoad":
@@ -258,9 +278,32 @@ func (s *c13Sched) yield(point string) {
 				q = pr.cand
 				s.failf("EmitTask for key %d acquired queue #%d although it was already claimed for deletion (refs=%d): its task can never run", pr.key, s.qinfo(q, pr.key).serial, q.refs.Load())
 			}
+			known := q != nil && s.qByPtr[q] != nil
 			pr.qi = s.qinfo(q, pr.key)
 			if pr.qi == nil && !s.closed {
 				s.failf("harness: producer %d holds no identifiable queue for key %d", pr.id, pr.key)
+			}
+			if pr.qi != nil && !known && pr.qi.gid == 0 && c13HasPopHook() && !s.free {
+				// This producer has just created the queue. Its convoy is starting up
+				// and parks at convoy.beforeOverflowPop when it finds the channel
+				// empty; wait for that before enqueueing, so that the start-up order
+				// is not left to the Go scheduler (and the worker is identified).
+				arrived := false
+				for _, q := range s.parked {
+					if q.prod == nil && q.point == "convoy.beforeOverflowPop" && s.gidQueue[q.gid] == nil {
+						s.gidQueue[q.gid] = pr.qi
+						pr.qi.gid = q.gid
+						arrived = true
+						break
+					}
+				}
+				if !arrived {
+					wait := make(chan struct{})
+					s.pendingFresh, s.pendingFreshQ = wait, pr.qi
+					s.mu.Unlock()
+					<-wait
+					s.mu.Lock()
+				}
 			}
 		case "emit.afterEnqueue":
 			t := pr.cur
@@ -402,6 +445,31 @@ func (s *c13Sched) checkQuiescent(final bool) {
 	}
 	if s.closed {
 		return
+	}
+	// A convoy that parks before it has run any task (convoy.beforeOverflowPop right
+	// after its start) is identified by elimination: producers run one at a time, so
+	// a step creates at most one queue and starts at most one worker.
+	var freshG []uint64
+	for _, p := range s.parked {
+		if p.prod == nil && s.gidQueue[p.gid] == nil {
+			dup := false
+			for _, g := range freshG {
+				dup = dup || g == p.gid
+			}
+			if !dup {
+				freshG = append(freshG, p.gid)
+			}
+		}
+	}
+	var freshQ []*c13QInfo
+	for _, qi := range s.queues {
+		if qi.gid == 0 {
+			freshQ = append(freshQ, qi)
+		}
+	}
+	if len(freshG) == 1 && len(freshQ) == 1 {
+		s.gidQueue[freshG[0]] = freshQ[0]
+		freshQ[0].gid = freshG[0]
 	}
 	// name parked goroutines deterministically
 	for _, p := range s.parked {
@@ -545,7 +613,11 @@ func (s *c13Sched) resume(p *c13Park) {
 	if p.prod != nil {
 		for _, q := range s.parked {
 			if q.prod == nil && strings.HasPrefix(q.point, "convoy.") {
-				s.classes["producer_step_inside_gc"] = true
+				if q.point == "convoy.beforeOverflowPop" {
+					s.classes["producer_step_inside_pop"] = true
+				} else {
+					s.classes["producer_step_inside_gc"] = true
+				}
 				s.classes["producer_step_at_"+q.point] = true
 			}
 		}
@@ -560,6 +632,10 @@ func (s *c13Sched) teardown() {
 	s.free = true
 	parked := s.parked
 	s.parked = nil
+	if s.pendingFresh != nil {
+		close(s.pendingFresh)
+		s.pendingFresh, s.pendingFreshQ = nil, nil
+	}
 	s.mu.Unlock()
 	for _, p := range parked {
 		close(p.resume)
@@ -637,10 +713,9 @@ func (s *c13Sched) drawProducer(rt *rapid.T, known, knownOvf bool) *c13Prod {
 			pr.tasks = append(pr.tasks, s.newTask(pr.key, pr.id, i == 0 || (parkLast && i == n-1)))
 		}
 		s.classes["burst"] = true
-		if knownOvf {
-			// the convoy must be parked (in the first task) before the burst free-runs
-			pr.mask["emit.afterEnqueue"] = true
-		}
+		// the convoy must be parked (in the first task or elsewhere) before the burst
+		// free-runs: the free run then starts from a scheduler step
+		pr.mask["emit.afterEnqueue"] = true
 	}
 	s.tr("emit(P%03d key=%d %s n=%d mask=%v)", pr.id, pr.key, kind, len(pr.tasks), c13SortedKeys(pr.mask))
 	return pr
@@ -688,7 +763,7 @@ func c13TaskPoolCase(rt *rapid.T) {
 	knownOvf := vkKnown("F-C13-1")
 	excludedOvf := false
 	nKeys := rapid.IntRange(1, 3).Draw(rt, "nKeys")
-	nSteps := rapid.IntRange(8, 140).Draw(rt, "nSteps")
+	nSteps := rapid.IntRange(8, 200).Draw(rt, "nSteps")
 	maxProd := rapid.IntRange(1, 4).Draw(rt, "maxProd")
 	allowReset := rapid.IntRange(0, 9).Draw(rt, "allowReset") == 0
 	allowClose := rapid.IntRange(0, 11).Draw(rt, "allowClose") == 0
@@ -710,8 +785,12 @@ func c13TaskPoolCase(rt *rapid.T) {
 				s.excluded++
 				continue
 			}
-			if knownOvf && s.forbiddenOverflowRace(p) {
-				excludedOvf = true
+			if s.forbiddenOverflowRace(p) {
+				// generator constraint (not an exclusion): a burst is emitted in one
+				// step while its convoy is parked, so the outcome is exact
+				if knownOvf {
+					excludedOvf = true
+				}
 				continue
 			}
 			w := 3
@@ -802,8 +881,7 @@ func c13TaskPoolCase(rt *rapid.T) {
 				excludedCase = true
 				continue
 			}
-			if knownOvf && s.forbiddenOverflowRace(p) {
-				excludedOvf = true
+			if s.forbiddenOverflowRace(p) {
 				continue
 			}
 			next = p
@@ -899,7 +977,7 @@ func c13TaskPoolCase(rt *rapid.T) {
 		cl = append(cl, "overflow_race_excluded")
 	}
 	nt := ""
-	if s.classes["producer_step_inside_gc"] || s.classes["overflow"] {
+	if s.classes["producer_step_inside_gc"] || s.classes["producer_step_inside_pop"] || s.classes["overflow"] {
 		nt = strings.Join(s.trace, ";")
 	}
 	cl = append(cl, fmt.Sprintf("keys_%d", nKeys))
@@ -914,108 +992,128 @@ func TestC13_TaskPool(t *testing.T) {
 	})
 }
 
-// TestC13_Finding_F5 replays the minimal schedule of finding F5: the worker of a
-// flow has passed its idle emptiness check, a complete EmitTask runs, then the
-// worker claims the queue. Correct behaviour: the task still runs exactly once,
-// under its own flow. When F5 is listed as known the test asserts it still
-// reproduces; otherwise it asserts the correct behaviour.
+// c13Script drives a c13Sched by hand for the deterministic finding replays.
+type c13Script struct {
+	s    *c13Sched
+	none map[string]bool
+}
+
+// emit runs a whole sequence of EmitTask calls of one producer (it never parks).
+func (sc *c13Script) emit(key, n int) []*c13Task {
+	s := sc.s
+	pr := &c13Prod{id: len(s.prods), key: key, mask: sc.none}
+	for i := 0; i < n; i++ {
+		pr.tasks = append(pr.tasks, s.newTask(key, pr.id, false))
+	}
+	s.startProducer(pr)
+	synctest.Wait()
+	return pr.tasks
+}
+
+func (sc *c13Script) parkedAt(point string) *c13Park {
+	s := sc.s
+	s.mu.Lock()
+	defer s.mu.Unlock()
+	for _, p := range s.parked {
+		if p.prod == nil && p.point == point {
+			return p
+		}
+	}
+	return nil
+}
+
+// runUntil resumes parked workers (never one parked at stop) and lets idle time
+// pass until a worker is parked at stop; stop == "" means until every queue is gone.
+func (sc *c13Script) runUntil(stop string) bool {
+	s := sc.s
+	for i := 0; i < 400; i++ {
+		synctest.Wait()
+		s.checkQuiescent(false)
+		if stop != "" && sc.parkedAt(stop) != nil {
+			return true
+		}
+		s.mu.Lock()
+		var next *c13Park
+		for _, p := range s.parked {
+			if stop == "" || p.point != stop {
+				next = p
+				break
+			}
+		}
+		live := 0
+		for _, qi := range s.queues {
+			if qi.q.refs.Load() >= 0 {
+				live++
+			}
+		}
+		s.mu.Unlock()
+		switch {
+		case next != nil:
+			s.resume(next)
+		case stop == "" && live == 0:
+			return true
+		default:
+			time.Sleep(UdpTaskPoolAgingTime + time.Millisecond)
+		}
+	}
+	return false
+}
+
+// TestC13_Finding_F5 replays the schedule of finding F5: the worker of a flow has
+// passed its idle emptiness check, a complete EmitTask runs, then the worker goes
+// on to claim the queue. Correct behaviour: the task still runs exactly once, in
+// order, under its own flow, and nothing is left behind. While F5 is listed as
+// known the test only reports whether it still reproduces; otherwise a lost or
+// misplaced task is a violation.
 func TestC13_Finding_F5(t *testing.T) {
-	var lost, foreign bool
+	var bad bool
 	var detail string
 	c13InBubble(t, func() {
 		s := c13NewSched(2)
 		defer s.teardown()
 		verifSetHooks(&verifHooks{Yield: s.yield})
-		none := map[string]bool{} // producers of this replay never park
-		one := func(key int, park bool) *c13Task {
-			pr := &c13Prod{id: len(s.prods), key: key, mask: none}
-			tk := s.newTask(key, pr.id, park)
-			pr.tasks = []*c13Task{tk}
-			s.startProducer(pr)
-			synctest.Wait()
-			return tk
-		}
-		// task 0 on flow A creates the queue and runs.
-		t0 := one(0, false)
-		// flow A idles: its worker passes the emptiness check and parks.
-		time.Sleep(UdpTaskPoolAgingTime + time.Millisecond)
-		synctest.Wait()
-		s.checkQuiescent(false)
-		s.mu.Lock()
-		var conv *c13Park
-		for _, p := range s.parked {
-			if p.point == "convoy.afterIdleCheck" {
-				conv = p
-			}
-		}
-		s.mu.Unlock()
-		if t0.runs != 1 || conv == nil {
-			detail = fmt.Sprintf("setup failed: first task ran %d times, worker parked after idle check: %v", t0.runs, conv != nil)
-			lost = true
+		sc := &c13Script{s: s, none: map[string]bool{}}
+		t0 := sc.emit(0, 1)[0]
+		if !sc.runUntil("convoy.afterIdleCheck") || t0.runs != 1 {
+			bad, detail = true, fmt.Sprintf("setup failed: first task ran %d times, no worker reached convoy.afterIdleCheck (%s)", t0.runs, s.tail())
 			return
 		}
-		// a whole EmitTask (acquire -> enqueue -> release) for flow A runs now.
-		t1 := one(0, false)
-		// the worker goes on: claim, delete, recycle.
-		for i := 0; i < 4; i++ {
-			s.mu.Lock()
-			var next *c13Park
-			if len(s.parked) > 0 {
-				next = s.parked[0]
-			}
-			s.mu.Unlock()
-			if next == nil {
-				break
-			}
-			s.resume(next)
-			synctest.Wait()
-		}
-		time.Sleep(3 * UdpTaskPoolAgingTime)
-		synctest.Wait()
-		// flow B starts; it may receive the recycled channel.
-		t2 := one(1, false)
-		for i := 0; i < 8; i++ {
-			time.Sleep(UdpTaskPoolAgingTime + time.Millisecond)
-			synctest.Wait()
-			s.mu.Lock()
-			parked := append([]*c13Park(nil), s.parked...)
-			s.mu.Unlock()
-			for _, p := range parked {
-				s.resume(p)
-				synctest.Wait()
-			}
-		}
-		s.checkQuiescent(true)
+		// a whole EmitTask (acquire -> enqueue -> release) for the same flow
+		t1 := sc.emit(0, 1)[0]
+		// the worker goes on; every flow idles out
+		done := sc.runUntil("")
+		// another flow starts; with the defect it may receive the recycled channel
+		t2 := sc.emit(1, 1)[0]
+		done = sc.runUntil("") && done
 		s.mu.Lock()
 		defer s.mu.Unlock()
-		lost = t1.runs != 1
-		if t1.runs == 1 {
-			for _, e := range s.execs {
-				if e.task == t1 && t1.qi != nil && s.gidQueue[e.gid] != t1.qi {
+		foreign := false
+		for _, e := range s.execs {
+			if e.task == t1 {
+				if t1.qi != nil && s.gidQueue[e.gid] != t1.qi {
 					foreign = true
 				}
-				if e.task == t1 {
-					for _, e2 := range s.execs {
-						if e2.task == t2 && e2.gid == e.gid {
-							foreign = true
-						}
+				for _, e2 := range s.execs {
+					if e2.task == t2 && e2.gid == e.gid {
+						foreign = true
 					}
 				}
 			}
 		}
-		detail = fmt.Sprintf("task accepted between emptiness check and claim: runs=%d foreign=%v; harness verdict: %q", t1.runs, foreign, s.failMsg)
+		bad = t1.runs != 1 || t2.runs != 1 || foreign || s.failMsg != "" || !done
+		detail = fmt.Sprintf("task accepted between emptiness check and claim ran %d time(s), under a foreign worker: %v, all flows idled out: %v, oracle: %q; schedule: %s",
+			t1.runs, foreign, done, s.failMsg, s.tail())
 	})
-	bad := lost || foreign
 	if vkKnown("F5") {
 		if bad {
 			vkKnownReproduced("F5")
 			t.Logf("known finding F5 still reproduces: %s", detail)
 		} else {
-			t.Logf("known finding F5 no longer reproduces (%s); remove it from known_findings.json", detail)
+			t.Logf("known finding F5 no longer reproduces (%s)", detail)
 		}
 		return
 	}
 	if bad {
-		t.Fatalf("F5: a task accepted between the convoy's idle emptiness check and its claiming CAS is lost or runs under another flow: %s", detail)
+		t.Fatalf("F5: a task accepted between the convoy's idle emptiness check and its claim must run exactly once under its own flow: %s", detail)
 	}
 }
